@@ -4,12 +4,12 @@ package dkv
 
 // Accessors for the C07/C18 verification harness (read-only views of unexported state).
 
-// VerifMemtableCount returns the number of memtables in the queue (sealed + the active one).
-func (db *DB) VerifMemtableCount() int {
+// VerifC07MemtableCount returns the number of memtables in the queue (sealed + the active one).
+func (db *DB) VerifC07MemtableCount() int {
 	return len(db.mtables.Sealed()) + 1
 }
 
-// VerifTableCounts returns the number of tables per level of the current level list.
-func (db *DB) VerifTableCounts() []int {
+// VerifC07TableCounts returns the number of tables per level of the current level list.
+func (db *DB) VerifC07TableCounts() []int {
 	return db.currentSSTables().TableCounts()
 }
